@@ -293,6 +293,28 @@ func runC18(c *Ctx) {
 	c.cleanupCannotBlock("R18.6")
 }
 
+// isLoopCtxRoot: v is the context returned by the context.WithCancel in the connection loop whose cancel is deferred there.
+func (c *Ctx) isLoopCtxRoot(v ssa.Value) bool {
+	ex, ok := v.(*ssa.Extract)
+	if !ok || ex.Index != 0 {
+		return false
+	}
+	call, ok := ex.Tuple.(*ssa.Call)
+	if !ok || calleeName(call) != "context.WithCancel" || call.Parent() != c.R.FnLoop {
+		return false
+	}
+	for _, ref := range *call.Referrers() {
+		if e1, ok := ref.(*ssa.Extract); ok && e1.Index == 1 {
+			for _, use := range transitiveUses(e1) {
+				if d, ok := use.(*ssa.Defer); ok && d.Parent() == c.R.FnLoop {
+					return true
+				}
+			}
+		}
+	}
+	return false
+}
+
 // isLoopCtx: v derives from the context.WithCancel in the connection loop whose cancel is deferred there.
 func (c *Ctx) isLoopCtx(v ssa.Value) bool {
 	loop := c.R.FnLoop
